@@ -478,10 +478,13 @@ pub(crate) mod verif_probe {
         let mut b_state = "not-run".to_string();
         if v["probe_b"].as_bool().unwrap_or(true) && !paused_at_end {
             { log.lock().phase = 2; }
-            let (mut b, _b_task) = connect_client(&db, &usern, csmap.clone(), &shutdown_tx);
+            let (mut b, _b_task) = connect_client_with(&db, &usern, csmap.clone(), &shutdown_tx, &v["b_startup_params"]);
             if read_until_ready(&mut b).await.is_none() { b_state = "login failed".to_string(); }
             else {
-                let _ = b.write_all(&simple_query("SELECT 1")).await;
+                match v["b_hex"].as_str() {
+                    Some(h) => { let _ = b.write_all(&unhex(h)).await; }
+                    None => { let _ = b.write_all(&simple_query("SELECT 1")).await; }
+                }
                 b_out = drain(&mut b, 400).await;
                 b_state = "ran".to_string();
             }
